@@ -14,11 +14,16 @@ Line-protocol handlers for C10 (driver `gm_c10`).
              | o                                   Decl / DocType / Comment / CData / PI
              | x                                   tokenizer error
       the model runs with `enoughFuel` (2·events+1)
+  jacocotok <hexbytes>    -> the events `Jacoco.Bytes.events` reads from the bytes, in the <ev> encoding
+                             above, blank-separated (`-` for none); an attribute syntax error is the
+                             pair `=`,`=` (two attributes with empty key and value)
+  jacocobytes <hexbytes>  -> `Jacoco.Bytes.parseBytes` in the answer format of `jacoco`
   unescape <hex>          -> some <hex> | none
   parsenum <32|64> <hex>  -> some <n> | none
   isjacoco <hex>          -> 1 | 0   (marker within the first min(256, len) bytes)
 -/
 import GrcovModel.Jacoco
+import GrcovModel.Jacoco.Bytes
 import GrcovModel.Drv.Merge
 namespace Grcov.Drv
 open Grcov Grcov.Jacoco
@@ -65,6 +70,17 @@ def handleJacocoCap : List String → String
     | _, _ => "bad-op"
   | [] => "bad-op"
 
+def showAttrs (as : List Attr) : String :=
+  String.join (as.map fun (k, v) => s!",{toHex k}={toHex v}")
+
+def showEvent : XmlEvent → String
+  | .start n a => s!"s,{toHex n}{showAttrs a}"
+  | .empty n a => s!"e,{toHex n}{showAttrs a}"
+  | .end_ n => s!"c,{toHex n}"
+  | .text => "t"
+  | .other => "o"
+  | .bad => "x"
+
 def optHexArg : List String → Option (List Nat)
   | [] => some []
   | [h] => fromHex h
@@ -95,10 +111,25 @@ def handleIsJacoco (args : List String) : String :=
   | some bs => if Jacoco.isJacoco bs then "1" else "0"
   | none => "bad-op"
 
+def handleJacocoTok (args : List String) : String :=
+  match optHexArg args with
+  | some bs =>
+    match Jacoco.Bytes.events bs with
+    | [] => "-"
+    | evs => joinWith " " (evs.map showEvent)
+  | none => "bad-op"
+
+def handleJacocoBytes (args : List String) : String :=
+  match optHexArg args with
+  | some bs => showJacoco (Jacoco.Bytes.parseBytes bs)
+  | none => "bad-op"
+
 def stepC10 (line : String) : String :=
   match line.trimAscii.toString.splitOn " " with
   | "jacoco" :: args => handleJacoco args
   | "jacococap" :: args => handleJacocoCap args
+  | "jacocotok" :: args => handleJacocoTok args
+  | "jacocobytes" :: args => handleJacocoBytes args
   | "unescape" :: args => handleUnescape args
   | "parsenum" :: args => handleParseNum args
   | "isjacoco" :: args => handleIsJacoco args
